@@ -1002,3 +1002,313 @@ func identDecl(info *types.Info, fb *FuncBody, v *types.Var) ast.Node {
 	})
 	return out
 }
+
+// writerSerialised (C17 / C18): the writers handed to the shell are written to from several goroutines.
+func writerSerialised(c *Check, a *Anchors) {
+	c.Rule("writer-serialised", "every io.Writer type of internal/output that keeps a buffer holds a mutex of its own across each entry method (Write, and the methods its CloseFunc calls) before it touches the buffer or calls a helper of the type: one writer object serves a command's stdout and stderr, and the shell writes to them from several goroutines (pipeline stages); a writer whose Write also emits (line-oriented) is not shared between stdout and stderr, so that a partial line of one stream is never completed by bytes of the other")
+	n := 0
+	pkg := c.P.Pkgs[PkgOutput]
+	if pkg == nil {
+		c.Errorf("writer-serialised: package %s not loaded", PkgOutput)
+		return
+	}
+	type wt struct {
+		named   *types.Named
+		st      *types.Struct
+		buf     []*types.Var
+		mutexes []*types.Var
+	}
+	var wts []wt
+	scope := pkg.Types.Scope()
+	for _, name := range scope.Names() {
+		tn, ok := scope.Lookup(name).(*types.TypeName)
+		if !ok {
+			continue
+		}
+		named, ok := tn.Type().(*types.Named)
+		if !ok {
+			continue
+		}
+		st, ok := named.Underlying().(*types.Struct)
+		if !ok {
+			continue
+		}
+		hasWrite := false
+		ms := types.NewMethodSet(types.NewPointer(named))
+		for i := 0; i < ms.Len(); i++ {
+			if ms.At(i).Obj().Name() == "Write" {
+				hasWrite = true
+			}
+		}
+		if !hasWrite {
+			continue
+		}
+		w := wt{named: named, st: st}
+		for i := 0; i < st.NumFields(); i++ {
+			f := st.Field(i)
+			switch types.TypeString(f.Type(), nil) {
+			case "bytes.Buffer", "*bytes.Buffer", "strings.Builder", "[]byte":
+				w.buf = append(w.buf, f)
+			case "sync.Mutex", "sync.RWMutex", "*sync.Mutex":
+				w.mutexes = append(w.mutexes, f)
+			}
+		}
+		if len(w.buf) > 0 {
+			wts = append(wts, w)
+		}
+	}
+	for _, w := range wts {
+		tname := w.named.Obj().Name()
+		// entry methods: Write + every method of the type called from a function literal in a WrapWriter
+		entries := map[string]bool{"Write": true}
+		for _, fb := range c.P.BodiesIn(PkgOutput) {
+			if fb.Decl == nil || fb.Decl.Name.Name != "WrapWriter" {
+				continue
+			}
+			info := fb.Info()
+			for _, lit := range allLits(fb) {
+				for _, call := range callsIn(lit, true) {
+					if fn, ok := callee(info, call).(*types.Func); ok {
+						if sig := fn.Type().(*types.Signature); sig.Recv() != nil && namedOf(sig.Recv().Type()) == w.named {
+							entries[fn.Name()] = true
+						}
+					}
+				}
+			}
+		}
+		streaming := false
+		for _, fb := range c.P.BodiesIn(PkgOutput) {
+			if fb.Decl == nil || fb.Decl.Recv == nil || fb.Obj == nil {
+				continue
+			}
+			sig := fb.Obj.Type().(*types.Signature)
+			if namedOf(sig.Recv().Type()) != w.named {
+				continue
+			}
+			info := fb.Info()
+			// does any method of the type other than the close path write to an inner io.Writer field
+			if !entries[fb.Decl.Name.Name] || fb.Decl.Name.Name == "Write" {
+				inspectBody(fb.Body, func(nd ast.Node) bool {
+					if sel, ok := nd.(*ast.SelectorExpr); ok {
+						if s := info.Selections[sel]; s != nil && s.Kind() == types.FieldVal && types.TypeString(s.Obj().Type(), nil) == "io.Writer" && reachesFromWrite(c, w.named, fb) {
+							streaming = true
+						}
+					}
+					return true
+				})
+			}
+			if !entries[fb.Decl.Name.Name] {
+				continue
+			}
+			n++
+			c.Fn(fb)
+			isMu := func(e ast.Expr) bool {
+				sel, ok := ast.Unparen(e).(*ast.SelectorExpr)
+				if !ok {
+					return false
+				}
+				s := info.Selections[sel]
+				if s == nil {
+					return false
+				}
+				for _, m := range w.mutexes {
+					if s.Obj() == m {
+						return true
+					}
+				}
+				return false
+			}
+			f := NewFlow(c.P, fb, func(call *ast.CallExpr, obj types.Object) string {
+				if sel, ok := ast.Unparen(call.Fun).(*ast.SelectorExpr); ok && isMu(sel.X) {
+					if fn, ok := obj.(*types.Func); ok {
+						return "own." + fn.Name()
+					}
+				}
+				return ""
+			})
+			f.NoInline = true
+			f.Effect = func(label string, call *ast.CallExpr, st Facts) {
+				switch label {
+				case "own.Lock":
+					st["held:own"] = true
+				case "own.Unlock":
+					delete(st, "held:own")
+				}
+			}
+			f.Run()
+			bad := ""
+			for node, st := range f.At {
+				switch node.(type) {
+				case *ast.CallExpr, *ast.AssignStmt, *ast.ReturnStmt, *ast.ExprStmt, *ast.IfStmt:
+				default:
+					continue
+				}
+				if call, ok := node.(*ast.CallExpr); ok && strings.HasPrefix(f.Labels[call], "own.") {
+					continue
+				}
+				if _, ok := node.(*ast.IfStmt); ok {
+					continue
+				}
+				ast.Inspect(node, func(m ast.Node) bool {
+					if _, isLit := m.(*ast.FuncLit); isLit {
+						return false
+					}
+					switch x := m.(type) {
+					case *ast.SelectorExpr:
+						if s := info.Selections[x]; s != nil {
+							touch := false
+							for _, b := range w.buf {
+								if s.Obj() == b {
+									touch = true
+								}
+							}
+							if fn, ok := s.Obj().(*types.Func); ok && s.Kind() == types.MethodVal {
+								if sig := fn.Type().(*types.Signature); sig.Recv() != nil && namedOf(sig.Recv().Type()) == w.named {
+									touch = true
+								}
+							}
+							if touch && !st.Has("held:own") && bad == "" {
+								bad = exprStr(x)
+							}
+						}
+					}
+					return true
+				})
+			}
+			c.Decide(bad == "", "writer-serialised", tname+"."+fb.Decl.Name.Name, fb.Body.Pos(), "every access to the buffer (and every helper call) happens with the writer's own mutex held",
+				"`"+bad+"` is reached in "+tname+"."+fb.Decl.Name.Name+" without the writer's own mutex held: stdout and stderr of one command are written from different goroutines, so buffered bytes are lost or duplicated")
+		}
+		// sharing between the two streams
+		for _, fb := range c.P.BodiesIn(PkgOutput) {
+			if fb.Decl == nil || fb.Decl.Name.Name != "WrapWriter" {
+				continue
+			}
+			info := fb.Info()
+			for _, r := range returnsOf(fb.Body) {
+				if len(r.Results) != 3 {
+					continue
+				}
+				v0, v1 := varOf(info, r.Results[0]), varOf(info, r.Results[1])
+				if v0 == nil || v1 == nil || namedOf(v0.Type()) != w.named {
+					continue
+				}
+				n++
+				c.Decide(!streaming || v0 != v1, "writer-serialised", "streams@"+fnDisplay(fb), r.Pos(), "a line-oriented writer is not shared between stdout and stderr (or the writer only buffers)",
+					tname+" emits while it is written to (line by line) and one instance is returned for both stdout and stderr: a partial line of one stream is completed by bytes of the other (torn lines)")
+			}
+		}
+	}
+	c.Floor("writer-serialised", n, 5)
+}
+
+// reachesFromWrite: fb is Write itself or a method of the type reachable from its Write through methods of the type.
+func reachesFromWrite(c *Check, named *types.Named, target *FuncBody) bool {
+	var write *FuncBody
+	for _, fb := range c.P.BodiesIn(PkgOutput) {
+		if fb.Decl != nil && fb.Decl.Recv != nil && fb.Obj != nil && fb.Decl.Name.Name == "Write" && namedOf(fb.Obj.Type().(*types.Signature).Recv().Type()) == named {
+			write = fb
+		}
+	}
+	if write == nil {
+		return false
+	}
+	return c.P.ReachableFrom([]*FuncBody{write}, nil)[target]
+}
+
+// cmdTemplatedWhole (C02 / C14): wherever one templated field of a command or dependency is rendered, its siblings are too.
+func cmdTemplatedWhole(c *Check, a *Anchors) {
+	c.Rule("call-templated-whole", "sibling agreement: every block that renders one of the templated fields of an ast.Cmd (Cmd, Task, Vars) or ast.Dep (Task, Vars) through the templater renders all of them for the same element, with the same extras form — a task call whose name or vars are left unrendered reaches the callee with literal template text (or not at all)")
+	want := map[string][]string{"Cmd": {"Cmd", "Task", "Vars"}, "Dep": {"Task", "Vars"}}
+	n := 0
+	ord := map[string]int{}
+	for _, fb := range c.P.BodiesIn(PkgTask) {
+		info := fb.Info()
+		var blocks []*ast.BlockStmt
+		inspectBody(fb.Body, func(nd ast.Node) bool {
+			if b, ok := nd.(*ast.BlockStmt); ok {
+				blocks = append(blocks, b)
+			}
+			return true
+		})
+		for _, b := range blocks {
+			type key struct {
+				v    *types.Var
+				kind string
+			}
+			got := map[key]map[string]string{}
+			var order []key
+			for _, st := range b.List {
+				as, ok := st.(*ast.AssignStmt)
+				if !ok || len(as.Lhs) != 1 || len(as.Rhs) != 1 {
+					continue
+				}
+				sel, ok := ast.Unparen(as.Lhs[0]).(*ast.SelectorExpr)
+				if !ok {
+					continue
+				}
+				v := varOf(info, sel.X)
+				if v == nil {
+					continue
+				}
+				nt := namedOf(v.Type())
+				if nt == nil || nt.Obj().Pkg() == nil || nt.Obj().Pkg().Path() != PkgAst {
+					continue
+				}
+				kind := nt.Obj().Name()
+				if want[kind] == nil {
+					continue
+				}
+				call, ok := ast.Unparen(as.Rhs[0]).(*ast.CallExpr)
+				if !ok {
+					continue
+				}
+				fn, ok := callee(info, call).(*types.Func)
+				if !ok || fn.Pkg() == nil || fn.Pkg().Path() != PkgTemplater || !strings.HasPrefix(fn.Name(), "Replace") {
+					continue
+				}
+				k := key{v, kind}
+				if got[k] == nil {
+					got[k] = map[string]string{}
+					order = append(order, k)
+				}
+				form := "plain"
+				if strings.HasSuffix(fn.Name(), "WithExtra") {
+					form = "extra"
+				}
+				got[k][sel.Sel.Name] = form
+			}
+			for _, k := range order {
+				n++
+				c.Fn(fb.Root())
+				var missing []string
+				forms := map[string]bool{}
+				for _, f := range want[k.kind] {
+					if form, ok := got[k][f]; !ok {
+						missing = append(missing, f)
+					} else {
+						forms[form] = true
+					}
+				}
+				name := ordinal(ord, k.kind+"@"+fnDisplay(fb.Root()))
+				switch {
+				case len(missing) > 0:
+					c.Bad("call-templated-whole", name, b.Pos(), fmt.Sprintf("this block renders %v of `%s` (*ast.%s) through the templater but not %v: the unrendered field reaches the callee as literal template text", strKeysOf(got[k]), k.v.Name(), k.kind, missing))
+				case len(forms) > 1:
+					c.Bad("call-templated-whole", name, b.Pos(), fmt.Sprintf("the fields of `%s` (*ast.%s) are rendered with different forms (with and without extras): the loop / exit-code extras are visible to one field and not to the other", k.v.Name(), k.kind))
+				default:
+					c.OK("call-templated-whole", name, b.Pos(), "all templated fields rendered with the same form")
+				}
+			}
+		}
+	}
+	c.Floor("call-templated-whole", n, 5)
+}
+
+func strKeysOf(m map[string]string) []string {
+	var out []string
+	for k := range m {
+		out = append(out, k)
+	}
+	sort.Strings(out)
+	return out
+}
